@@ -97,7 +97,7 @@ CHECKS = {
    technique="TLA+ operator TreeEq evaluated by TLC on the MC_Copy state graph; compared with the code on every ordered node pair",
    design="4/C18"),
  "C19": dict(
-   text="Evaluate.tla states the documented recommendations as, per node, the set of acceptable warning sets over a flat tree projection (names, child lists, word counts, truthiness, ORCID flag), with the UNSPEC corners as several acceptable sets. MC_EvalPlans (TLC) enumerates 15,248 dataset profiles (x a complete / minimal / no dataSource nested in the methods) - every threshold at -1/0/+1, every optional part present/absent, abstract text in own content / para / markdown / split / below sections / paras with only inline children, keywords over 1-2 sets, party ids none / other directory / ORCID / both. Each profile is realised as a tree that passes validate.tree (discarded and counted otherwise), evaluated into a pre-filled list and judged node by node by TraceEval.tla: no exception, earlier entries intact, (EvaluationWarning, str, node) triples, exactly an acceptable set at every node. Random rule-guided valid trees go through the same judge; mutated known-name trees, parentless nodes and text-less paras are judged for totality (evaluate.tree and evaluate.node).",
+   text="Evaluate.tla states the documented recommendations as, per node, the set of acceptable warning sets over a flat tree projection (names, child lists, word counts, truthiness, ORCID flag), with the UNSPEC corners as several acceptable sets. MC_EvalPlans (TLC) enumerates 15,692 dataset profiles (x a complete / minimal / no dataSource nested in the methods) - every threshold at -1/0/+1, every optional part present/absent, abstract text in own content / para / markdown / split / below sections / paras with only inline children, keywords over 1-2 sets, party ids none / other directory / ORCID / both. Each profile is realised as a tree that passes validate.tree (discarded and counted otherwise), evaluated into a pre-filled list and judged node by node by TraceEval.tla: no exception, earlier entries intact, (EvaluationWarning, str, node) triples, exactly an acceptable set at every node. Random rule-guided valid trees go through the same judge; mutated known-name trees, parentless nodes and text-less paras are judged for totality (evaluate.tree and evaluate.node).",
    note="Word counts and truthiness are observed by the harness projection (Python split); title words separated by spaces. Several physical/size/dataFormat children not generated.",
    technique="profile enumeration by TLC (MC_EvalPlans) + TLA+ recommendation semantics (Evaluate.tla) judging recorded evaluations with TLC (TraceEval.tla)",
    design="4/C19"),
